@@ -44,7 +44,10 @@ RULE = ("scenarios = 0-8 expectations over <=3 function names, <=3 parameter nam
         "parameter names, late strictOrder: model comparison only unless the oracle finds them inside the hypothesis), "
         "plugin (2-5 scripted tests per case run in a private TestRegistry with the real MockSupportPlugin, no checkExpectations / "
         "clear of their own, some failing by a plain FAIL before / inside / after the scenario; verdict per test from the run), "
-        "malformed; every failing scenario of the direct mode also shows the expectation history of its failure text (hist lines); a dedicated family of small cases walks through every ordered pair of the six integer types with values "
+        "teardown (2-4 scripted tests per case in a private TestRegistry WITHOUT the plugin, the library's default "
+        "MockFailureReporter, every test verifying the mock itself in teardown() by mock().checkExpectations(); mock().clear(); - "
+        "mostly strict-order bodies with two neighbouring calls swapped early and a later deviation that ends the body; every "
+        "failure the run records for the test is observed), malformed; every failing scenario of the direct mode also shows the expectation history of its failure text (hist lines); a dedicated family of small cases walks through every ordered pair of the six integer types with values "
         "from the boundary lattice that are equal, or congruent modulo 2^32 / 2^64 but different as integers; non-trivial = at least one expectation and one call; distinct = distinct op sequences")
 
 FUNCS = ["f0", "f1", "f2"]
@@ -465,6 +468,59 @@ def gen_plugin_case(rng):
     return ops
 
 
+def gen_strict_then_deviation(rng):
+    """the body of a test under strict ordering: two neighbouring calls swapped early (accepted silently, only the
+    end-of-test check diagnoses it), later - mostly - a deviation that is reported at once and ends the body
+    (unknown function, surplus call, wrong value, missing / renamed parameter, wrong object), more calls after it"""
+    ops = ["strict -"]
+    exps = []
+    for _ in range(rng.choice([2, 2, 3, 4])):
+        for _try in range(10):
+            e = decorate(rng, fresh_exp(rng, "-", rng.choice(FUNCS)))
+            e.count = rng.choice(["one", "one", "one", "2"])
+            if unambiguous_with(exps, e):
+                exps.append(e)
+                break
+    calls = [call_of(e, rng) for e in exps for _ in range(e.n())]
+    if len(calls) >= 2 and rng.random() < 0.85:
+        i = rng.randrange(len(calls) - 1) if rng.random() < 0.5 else 0
+        calls[i], calls[i + 1] = calls[i + 1], calls[i]
+    x = rng.random()
+    if x < 0.3:
+        calls.append(C("-", rng.choice(["g9"] + FUNCS), [], [], None))          # unknown function / surplus call
+    elif x < 0.45 and calls:
+        c = rng.choice(calls)
+        calls.append(C(c.scope, c.fn, c.ins, c.outs, c.obj))                     # surplus call
+    elif x < 0.8 and calls:
+        tail = calls[-2:]
+        mutate(rng, tail, ["-"])
+        calls = calls[:-2] + tail
+    elif x < 0.9 and calls:
+        calls.pop()                                                              # unfulfilled: seen only at the end
+    if rng.random() < 0.3:
+        calls.append(C("-", rng.choice(FUNCS), [], [], None))
+    for c in calls:
+        c.r = rng.random() < 0.4
+    return ops + [e.line(rng) for e in exps] + [c.line(rng) for c in calls]
+
+
+def gen_teardown_case(rng):
+    """2-4 scripted tests in a private registry WITHOUT the plugin: default reporter, every test verifies the mock
+    itself in teardown() (`mock().checkExpectations(); mock().clear();`); mostly strict-order bodies with an early
+    out-of-order call and a later deviation, some generic bodies, some plain FAILs"""
+    ops = ["teardown"]
+    for t in range(rng.randint(2, 4)):
+        ops.append("test t%d" % (t + 1))
+        body = gen_strict_then_deviation(rng) if rng.random() < 0.7 else gen_test_body(rng)
+        r = rng.random()
+        if r < 0.05:
+            body = ["fail"] + body
+        elif r < 0.15:
+            body = body + ["fail"]
+        ops += body
+    return ops
+
+
 def gen_malformed(rng):
     ops = gen_case(rng, "plain")
     junk = ["call", "call -", "expect - x f0", "expect - no f0 p:p0:i:1", "call - f0 r p:p0:i:1", "call - f0 p:p0:z:1",
@@ -489,14 +545,17 @@ def generate(rng, tier):
         out.append(("ambig", gen_case(rng, "ambig")))
     for _ in range(n // 4):
         out.append(("plugin", gen_plugin_case(rng)))
+    for _ in range(n // 5):
+        out.append(("teardown", gen_teardown_case(rng)))
     for _ in range(n // 30):
         out.append(("malformed", gen_malformed(rng)))
     return out
 
 
 def translate(ctx):
-    from translate import extract_mockmsgs, extract_mockplugin, extract_mocklists
-    return (extract_mockmsgs.run() or []) + (extract_mockplugin.run() or []) + (extract_mocklists.run() or [])
+    from translate import extract_mockmsgs, extract_mockplugin, extract_mocklists, extract_mockreporter
+    return ((extract_mockmsgs.run() or []) + (extract_mockplugin.run() or []) + (extract_mocklists.run() or []) +
+            (extract_mockreporter.run() or []))
 
 
 def nontrivial(r):
@@ -567,7 +626,29 @@ def observe(r, rep):
                     rep.count("plugin.end_of_test_failure_after_an_earlier_failed_test")
             if l == "verdict fail":
                 seen_fail = True
-    if tag in ("plain", "iop", "plugin"):
+    if tag == "teardown":
+        tests = [l for l in r.impl if l.startswith("verdict ")]
+        rep.count("teardown.tests", len(tests))
+        body_failed = hidden = False
+        for i, l in enumerate(r.impl):
+            if l.startswith("> test "):
+                body_failed = False
+                hidden = False
+            elif l.startswith("fail Mock") and not hidden:
+                body_failed = True
+            elif l == "> endtest":
+                hidden = True
+                j = i + 1
+                fails = []
+                while j < len(r.impl) and not r.impl[j].startswith(">"):
+                    if r.impl[j].startswith("fail "):
+                        fails.append(r.impl[j])
+                    j += 1
+                rep.count("teardown.end_check." + ("silent_after_mock_failure_in_body" if body_failed else
+                                                   "reports" if fails else "nothing_to_report"))
+                if len(fails) > 1:
+                    rep.count("teardown.end_check.reported_more_than_once")
+    if tag in ("plain", "iop", "plugin", "teardown"):
         rep.count("oracle.judged." + tag)
     if tag == "iop" and any(" iop" in l or l.endswith("iop") for l in r.ops if l.startswith("expect ")):
         rep.count("feature.ignoreOtherParameters")
